@@ -5,5 +5,6 @@ rm -rf /tmp/verif-build-*
 if [ "$5" = race ]; then /verif/verifctl build $1 --race | tail -2; else /verif/verifctl build $1 | tail -2; fi
 D=$(ls -d /tmp/verif-build-*); mkdir -p $D/w; cd $D/w
 export GOMAXPROCS=2
+export GORACE="log_path=$D/w/race halt_on_error=0 suppress_equal_stacks=0 suppress_equal_addresses=0" VERIF_RACE_LOG=$D/w/race
 ( time timeout -s QUIT ${TMO:-300} ../bin/$1.test -test.run "^$2\$" -rapid.checks $3 -rapid.seed $4 > out.txt 2>&1 ) 2>&1 | grep real
 grep -v "rapid\] draw" out.txt | tail -${TAILN:-15}
